@@ -1,6 +1,6 @@
-(* C02 - constant folding is unobservable: the Coq core (optimizer model Sem/Opt.v against the
-   reference semantics Sem/Ref.v).  Only property theorems, each closed by an exact lemma; the
-   coordinator assembles the final Props/C02.v from this file.
+(* C02 - constant folding is unobservable (optimizer model Sem/Opt.v against the reference
+   semantics Sem/Ref.v).  Only property theorems, each closed by an exact lemma or by computation,
+   non-vacuity examples and Print Assumptions.
 
    Reading guide.
    * [arel known s a t]   : t is an optimized form of a when the names in s are known constants
@@ -29,7 +29,9 @@
      proves that nothing impure is run at Generate time (the purity theorems below) and that the
      thrown text of `throw` is the same with and without optimizer (wrel relates Err t to Err t). *)
 From P2 Require Import Base.Prelude Sem.Num Sem.Syntax Sem.Ops Sem.Lib Sem.Ref Sem.Gen Sem.Sim Sem.RefMono Sem.Opt
-  Sem.OptRel Sem.OptRelProofs Sem.OptProofs Sem.OptWf Sem.OptSound Sem.OptFlagsProofs Sem.OptValue.
+  Sem.OptRel Sem.OptRelProofs Sem.OptProofs Sem.OptWf Sem.OptSound Sem.OptFlagsProofs Sem.OptValue
+  Sem.OptExamples Sem.OptCfg Generated.ValueCfg Run.C02Run.
+
 
 (* more fuel never changes a result other than "out of fuel" *)
 Theorem eval_mono : forall known n m env a,
@@ -134,9 +136,6 @@ Proof. exact OptFlagsProofs.regroup_mul_partial_int. Qed.
 
 (* (repaired in the repo) without the closure-field check the method rule folds
    {get: k -> 42, a: 7}.get("a") to 7 although the program evaluates to 42 *)
-Definition field_witness : ast :=
-  AMethod (AMap [(n_get, AClosure [[107%N]] (AConst (VInt 42)) [] false []); ([97%N], AConst (VInt 7))])
-          n_get [AConst (VStr [97%N])].
 Theorem method_fold_without_field_check_refuted :
   eval [] 100 [] field_witness = Ok (VInt 42) /\
   eval [] 100 [] (optimize pinned_flags [] 100 field_witness) = Ok (VInt 7) /\
@@ -164,25 +163,21 @@ Proof. exact static_run_at_generate_is_pure. Qed.
    closure-literal rule, a constant closure run at Generate time, a method with a callback run at
    Generate time and a static function all fire; the implementation's optimizer agrees with the
    strict one on this program, and the optimized program differs from the original *)
-Definition nv_x : name := [120%N].
-Definition nv_y : name := [121%N].
-Definition nv_f : name := [102%N].
-Definition nv_z : name := [122%N].
-Definition nv_prog : ast :=
-  ALet nv_y (AOp op_add (AConst (VInt 1)) (AConst (VInt 2)))
-   (ALet nv_f (AClosure [nv_z] (AOp op_mul (AIdent nv_z) (AIdent nv_y)) [nv_y] false [])
-    (AIf (AOp op_lt (AConst (VInt 1)) (AConst (VInt 2)))
-         (AOp op_add
-            (AOp op_mul (AIdent nv_x) (ACall (AIdent nv_f) [AStatic n_abs [AUnary op_sub (AIdent nv_y)]]))
-            (AMethod (AMethod (AList [AConst (VInt 1); AConst (VInt 2)]) n_map [AIdent nv_f]) n_size []))
-         (AStatic n_throw [AConst (VStr nv_y)]))).
-Example C02_core_nonvacuous :
+Example C02_nonvacuous :
   optimize value_flags [] 50 nv_prog = AOp op_add (AOp op_mul (AIdent nv_x) (AConst (VInt 9))) (AConst (VInt 2)) /\
   optimize value_flags [] 50 nv_prog = optimize (strict value_flags) [] 50 nv_prog /\
   side_ok nv_prog = true /\
   eval [] 50 [(nv_x, VInt 7)] nv_prog = Ok (VInt 65) /\
   eval [] 50 [(nv_x, VInt 7)] (optimize value_flags [] 50 nv_prog) = Ok (VInt 65).
 Proof. vm_compute. repeat split. Qed.
+
+(* the table obligation: the flags regenerated from the current value.New() (Generated/ValueCfg.v ->
+   Sem/OptCfg.v generated_flags) agree with value_flags, the configuration all theorems below are
+   about: same operators with the same IsPure/IsCommutative flags, same unary operators, every static
+   function the model knows has the modelled IsPure flag, no impure method, all handlers present.
+   Flipping a flag in value/value.go breaks this obligation at coqc. *)
+Theorem C02_flags_match : flags_match generated_flags value_flags = true.
+Proof. vm_compute. reflexivity. Qed.
 
 Print Assumptions eval_mono.
 Print Assumptions optimized_form_sound.
@@ -209,3 +204,4 @@ Print Assumptions folding_never_runs_impure.
 Print Assumptions folding_closure_run_is_pure.
 Print Assumptions folding_closure_literal_is_pure.
 Print Assumptions folding_static_run_is_pure.
+Print Assumptions C02_flags_match.
